@@ -1,4 +1,4 @@
-import DoitModel.Proofs.RunOrder
+import DoitModel.Proofs.RunPar
 /-! # C01 — dependency-ordered execution under every schedule
 
 Property theorems only (model: `Model/Run.lean`; invariants: `Proofs/Run*.lean`).
@@ -30,7 +30,44 @@ theorem C01_order_known_deps_serial (inp : RunInput) (s : Sys) (hr : Reach inp s
       ∀ d ∈ deps, Ev.success d ∈ post ∨ Ev.skipUtd d ∈ post :=
   start_after_known_deps (reach_inv2 hr) he
 
-/-- the statement for the parallel runners (MRunner / MThreadRunner main loop + workers) -/
-def C01_order_parallel_full : Prop := ∀ inp : RunInput, OrderHolds inp (PReach inp)
+/-- C01 for the parallel runners: `MRunner` / `MThreadRunner` main loop (`get_next_job`, the start loop, the result
+    loop with `free_proc` hand-outs) interleaved arbitrarily with any number of workers at queue-operation granularity
+    (`Choice.take w` / `Choice.done w`), every `numProcess` -/
+theorem C01_order_parallel (inp : RunInput) : OrderHolds inp (PReach inp) :=
+  fun _ hr i t w hi d hd => order_indices (preach_inv hr).1 i t w hi d hd
+
+theorem C01_order_known_deps_parallel (inp : RunInput) (s : Sys) (hr : PReach inp s) (pre post : List Ev) (t w : Nat)
+    (he : s.events = pre ++ Ev.start t w :: post) :
+    ∃ deps, Ev.go t deps ∈ post ∧ (∀ d ∈ staticDeps inp t, d ∈ deps) ∧
+      ∀ d ∈ deps, Ev.success d ∈ post ∨ Ev.skipUtd d ∈ post :=
+  start_after_known_deps (preach_inv hr).1 he
+
+/-- consequently two tasks related by a dependency never execute concurrently: in no reachable state are a task and
+    one of its dependencies both being executed by workers -/
+theorem C01_no_overlap (inp : RunInput) (s : Sys) (hr : PReach inp s) (w w' : Nat) (t d : Name)
+    (ht : s.workers w = .running t) (hd : s.workers w' = .running d) : d ∉ staticDeps inp t := by
+  obtain ⟨h2, h3⟩ := preach_inv hr
+  intro hmem
+  obtain ⟨a1, _, _⟩ := h3.w1 w t ht
+  obtain ⟨_, _, b3⟩ := h3.w1 w' d hd
+  have hterm : cTerm s d = 0 := h3.t d (by rw [b3]; rfl)
+  -- a start event of `t` exists
+  have hpos : 0 < s.events.countP (Ev.isStartOf t) := by
+    have : cStart s t = 1 := a1
+    unfold cStart at this; omega
+  obtain ⟨e, he, hp⟩ := List.countP_pos_iff.mp hpos
+  cases e with
+  | start n wk =>
+    have hn : n = t := by simpa [Ev.isStartOf] using hp
+    subst hn
+    obtain ⟨pre, post, hsplit⟩ := List.append_of_mem he
+    have hfin := start_after_deps h2 hsplit d hmem
+    have hin : ∃ e ∈ s.events, Ev.isTerminalOf d e = true := by
+      rcases hfin with x | x
+      · exact ⟨Ev.success d, by rw [hsplit]; simp [x], by simp [Ev.isTerminalOf]⟩
+      · exact ⟨Ev.skipUtd d, by rw [hsplit]; simp [x], by simp [Ev.isTerminalOf]⟩
+    have : 0 < s.events.countP (Ev.isTerminalOf d) := List.countP_pos_iff.mpr hin
+    unfold cTerm at hterm; omega
+  | _ => simp [Ev.isStartOf] at hp
 
 end DoitModel.C01
